@@ -1432,11 +1432,27 @@ def _free(m, p):
     # freed blocks are never reused (bump allocator); their cells are dropped so that scans of live memory do not see them
     p = m.resolve_addr(p)
     size = m.heap_sizes.pop(p, None)
-    if size is not None and size <= (1 << 20):
-        mem = m.mem
+    if size is None:
+        return None
+    for obj in m.arrays:
+        if obj[0] == p:
+            m.arrays.remove(obj)  # array-mode block: no flat cells to drop
+            return None
+    mem = m.mem
+    if size <= 4096:
         for a in range(p, p + size):
             mem.pop(a, None)
+    else:
+        for a in [a for a in mem if p <= a < p + size]:
+            del mem[a]
     return None
+
+
+def _clock_gettime(m, clk, ts):
+    # time is not an input of any checked property: a fixed instant (timestamps only label snapshot metadata)
+    m.store_bytes(m.resolve_addr(ts), 0, 8)
+    m.store_bytes(m.resolve_addr(ts) + 8, 0, 8)
+    return 0
 
 
 def _posix_memalign(m, out, align, size):
@@ -1514,7 +1530,7 @@ def _key_create(m, out, dtor):
 
 
 STUBS = {
-    "malloc": _malloc, "calloc": _calloc, "realloc": _realloc, "free": _free, "posix_memalign": _posix_memalign,
+    "clock_gettime": _clock_gettime, "malloc": _malloc, "calloc": _calloc, "realloc": _realloc, "free": _free, "posix_memalign": _posix_memalign,
     "getenv": _getenv, "getrandom": _getrandom, "syscall": _syscall, "bcmp": _bcmp, "memcmp": _memcmp, "strlen": _strlen,
     "abort": _abort, "write": _write, "__errno_location": _errno,
     "pthread_key_create": _key_create, "pthread_key_delete": lambda m, k: 0,
